@@ -290,16 +290,16 @@ fn ast_macro(m: &syn::Macro) -> J {
         },
         "emit_error" => {
             // the first string literal among the arguments is the message
-            let mut msg = String::new();
+            // the message and the literal notes, in order (notes built with format! are not literals and are left out)
+            let mut parts: Vec<String> = vec![];
             for tt in m.tokens.clone() {
                 if let proc_macro2::TokenTree::Literal(l) = &tt {
                     if let Ok(ls) = syn::parse_str::<syn::LitStr>(&l.to_string()) {
-                        msg = ls.value();
-                        break;
+                        parts.push(ls.value());
                     }
                 }
             }
-            a("emit_error", vec![s(msg)])
+            a("emit_error", vec![s(parts.join(" | "))])
         }
         "format" => {
             struct F(syn::LitStr);
